@@ -54,7 +54,7 @@ struct raw_ident {
 #define MAXSLOT 8
 #define PRE     (sizeof(NODE) - sizeof(struct raw_ident))
 
-enum { HowInit = 1, HowNew, HowNode, HowTraits };
+enum { HowInit = 1, HowNew, HowNode, HowTraits, HowMacro, HowNodeMacro };
 
 struct slot {
 	int    live;
@@ -115,6 +115,33 @@ static int slot_make(struct slot *s, size_t size, int how)
 	else if (how == HowNode) {
 		if (!(s->node = (NODE *) mpt_node_new(size))) return 0;
 		s->id = IDENT_OF(s->node);
+	}
+	else if (how == HowMacro || how == HowNodeMacro) {
+		/* objects set up by the static initialisers, of exactly their own size (ASan guards the end) */
+		if (how == HowMacro) {
+			s->mem = malloc(sizeof(struct raw_ident));
+			memset(s->mem, 0xEE, sizeof(struct raw_ident));
+			s->node = 0;
+			s->id = (IDENT *) s->mem;
+		} else {
+			s->mem = malloc(sizeof(NODE));
+			memset(s->mem, 0xEE, sizeof(NODE));
+			s->node = (NODE *) s->mem;
+			s->id = IDENT_OF(s->node);
+		}
+#ifdef __cplusplus
+		/* C++ has no initialiser macro: the default constructor is its counterpart */
+		if (s->node) { s->node->_meta = 0; s->node->next = s->node->prev = s->node->parent = s->node->children = 0; }
+		new (s->id) mpt::identifier();
+#else
+		if (how == HowMacro) {
+			static const MPT_STRUCT(identifier) init = MPT_IDENTIFIER_INIT;
+			memcpy(s->id, &init, sizeof(init));
+		} else {
+			static const MPT_STRUCT(node) init = MPT_NODE_INIT;
+			memcpy(s->node, &init, sizeof(init));
+		}
+#endif
 	}
 	else {
 		s->node = raw_node(size, &s->mem);
@@ -257,6 +284,20 @@ static void drv_step(struct cmd *c)
 		vf_fail_after = -1;
 		answer(c, ok ? "ok" : "refused", 0, 0);
 	}
+	else if (!strcmp(a, "setself")) {
+		/* the new name lies inside the identifier's own current content */
+		size_t off = (size_t) drv_uint(c, "off", 0);
+		int n = (int) drv_int(c, "n", 0), ok;
+		const char *own;
+		if (!(s = slot_arg(c, "id")) || !s->live) goto bad;
+		own = (const char *) mpt_identifier_data(s->id) + off;
+#ifdef __cplusplus
+		ok = s->id->set_name(own, n);
+#else
+		ok = mpt_identifier_set(s->id, own, n) != 0;
+#endif
+		answer(c, ok ? "ok" : "refused", 0, 0);
+	}
 	else if (!strcmp(a, "setraw")) {
 		int n = (int) drv_int(c, "n", 0), ok;
 		if (!(s = slot_arg(c, "id")) || !s->live) goto bad;
@@ -342,7 +383,8 @@ static void drv_step(struct cmd *c)
 	}
 	else if (!strcmp(a, "make")) {
 		const char *how = drv_raw(c, "how");
-		int h = (how && !strcmp(how, "new")) ? HowNew : (how && !strcmp(how, "node")) ? HowNode : HowInit;
+		int h = (how && !strcmp(how, "new")) ? HowNew : (how && !strcmp(how, "node")) ? HowNode
+		      : (how && !strcmp(how, "macro")) ? HowMacro : (how && !strcmp(how, "nodemacro")) ? HowNodeMacro : HowInit;
 		if (!(s = slot_arg(c, "id")) || s->live) goto bad;
 		answer(c, slot_make(s, (size_t) drv_uint(c, "size", 16), h) ? "ok" : "refused", 0, 0);
 	}
